@@ -269,7 +269,8 @@ Section Script.
               && follower 0 nid dst nsp false && follower 1 nid dst nsp false && follower 2 nid dst nsp false && common
             else
               match i_dest i with
-              | DInit => is_exn (at_ 2) EDestinationExists && unchanged && common
+              (* conflict: both jobs untouched on disk AND the handle still shows the old job (fix 5e72814) *)
+              | DInit => is_exn (at_ 2) EDestinationExists && unchanged && shows 0 true oid src old && common
               | _ =>
                   is_unit (at_ 2) && none_under src post && isdir_t post dst
                   && tree_same_except [[SPF]] (rel_tree src pre) (rel_tree dst post)
@@ -309,6 +310,17 @@ Section Script.
     | None => false
     end.
 
+  (* tag 3 on the rollback path (fix 5e72814 restores the in-memory data with the same _update): merging the
+     file's old state point back into the rejected data keeps values that compare == *)
+  Definition class_drop_rollback (i : input_C04) : bool :=
+    match i_dest i, spec_new (i_route i) (i_old i) with
+    | DInit, Some nsp =>
+        rekey_route (i_route i) && negb (is_uninit (i_prov i)) &&
+        let mem := match merge_args i with Some (ex, nw) => snd (upd_root ex nw) | None => nsp end in
+        negb (json_same (snd (upd_root mem (i_old i))) (i_old i))
+    | _, _ => false
+    end.
+
   (* tag 2: a shallow copy taken before the source handle ever accessed its state point gets a cell of its own *)
   Definition class_early_copy (i : input_C04) : bool :=
     negb (has_cell i) && Nat.ltb 0 (i_shallow i) && rekey_route (i_route i).
@@ -317,7 +329,7 @@ Section Script.
      (fix: aa8b5a9, 3806f72) and are no longer classified: such a violation is reported. *)
   Definition known_tag (i : input_C04) (outs : list oval) : nat :=
     if holds_in i outs then 0
-    else if class_drop i then 3
+    else if class_drop i || class_drop_rollback i then 3
     else if class_early_copy i && holds_mask (mkMask false true) i outs then 2
     else 0.
 End Script.
